@@ -10,15 +10,15 @@ COMMON_NOTE = ('Trusted: Coq 8.16.1 kernel incl. vm_compute (no native_compute);
 CLAIMS = {
  'C01': ('67 data-processing opcode classes (ADC..TST, shifts, moves; immediate / register / register-shifted-register) '
          'each proved equal to one semantic function dp_sem (A8.8 pseudocode: Shift_C, AddWithCarry, flags, ALUWritePC) '
-         'for every operand value, flag state, mode, architecture version; frame of dp_sem proved once.',
+         'for every operand value, flag state, mode, architecture version; frame of dp_sem proved once; ADR (incl. Rd = PC) and MOVT proved separately.',
          'Scope: execute() of the opcode classes with condition passed (C05 covers the failing case) and field ranges as '
-         'produced by decode; ADR, MOVT and the decode of operands (C06/C07) are not in these theorems.'),
+         'produced by decode; the decode of operands (C06/C07) is not in these theorems.'),
  'C02': ('36 single-register load/store classes proved equal to the architecture pseudocode (Spec/LoadStore.v, Spec/LoadStoreUnpriv.v) with MemU / MemU_unpriv instantiated by the emulator (C13/C14): LDR/LDRB/LDRH/LDRSB/LDRSH and STR/STRB/STRH in their immediate and register forms, ARM and Thumb, the five literal (PC-relative) loads, and the unprivileged LDRT/LDRBT/LDRHT/LDRSBT/LDRSHT/STRT/STRBT/STRHT: address for offset/pre/post-indexed forms modulo 2^32, width, destination value (incl. legacy rotation, zero/sign extension, UNKNOWN = 0 on a misaligned access without unaligned support), base write-back only after a successful access, loads to the PC via LoadWritePC of the loaded word; the memory hypotheses are shown satisfiable on flat maps.',
          'Partial: doubleword and exclusive forms are covered by the regenerated model and the whole-step correspondence only; register numbers are bounded as the encodings guarantee (Rt <= 14 where a PC destination is UNPREDICTABLE); Hyp mode is excluded for the unprivileged forms (UNPREDICTABLE); operand extraction of the encodings is checked under C06/C07.'),
- 'C03': ('LDM/STM in all four addressing modes (IA, DA, DB, IB; ARM and Thumb LDM), PUSH and POP proved equal to the architectural loops by induction over the register list, for every register mask, base, W bit and state: start address and written-back base per mode, lowest register at the lowest address, consecutive words modulo 2^32, PC last, write-back only after all accesses succeeded, UNKNOWN stored for a written-back base that is not lowest (the code\'s lowest-set-bit helper proved equal to the specification\'s on all 65535 non-empty lists); the invariant they need is shown to hold on flat maps.',
-         'Partial: the privileged members (user-register and exception-return LDM/STM, SRS, RFE) and the single-register PUSH/POP encodings that use MemU have executable specifications (Spec/BlockFamily.v) compared three-way incl. transfers that abort part-way under the MPU, without theorems; the PUSH;POP round trip is not stated separately.'),
- 'C04': ('execute() of B, BL/BLX (immediate), BLX (register), BX, CBZ/CBNZ and the four PC-write primitives proved equal to the architectural operations for every state, offset, register and PC (incl. wrap at 2^32); the offset assembled by every branch encoding proved to be the sign-extended field for every instruction word; PC read value and sequential advance; alignment and link-value consequences.',
-         'Partial: TBB/TBH has an executable specification compared by correspondence (no theorem); loads/ALU writes to PC belong to C01-C03; the whole-step statement "non-branch instructions advance the PC by their length" is searched (C05 step search), not proved. Known finding: CBZ offset scaled by 4 (pinned by the test-suite).'),
+ 'C03': ('every member of the block-transfer family proved equal to the architectural loops by induction over the register list, for every register mask, base, W bit and state: LDM/STM in all four addressing modes (IA, DA, DB, IB; ARM and Thumb LDM), PUSH, POP, LDM/STM (user registers), LDM (exception return), RFE and SRS (ARM/Thumb): start address and written-back base per mode, lowest register at the lowest address, consecutive words modulo 2^32, PC last, write-back only after all accesses succeeded, UNKNOWN stored for a written-back base that is not lowest (the code\'s lowest-set-bit helper proved equal to the specification\'s on all 65535 non-empty lists), the user bank for the user-register forms, the banked SP of the target mode for SRS, CPSRWriteByInstr + BranchWritePC for the return forms; the invariant they need is shown to hold on flat maps for ordinary register writes.',
+         'Partial: the single-register PUSH/POP encodings that use MemU have executable specifications compared three-way, without theorems; the privileged forms are stated for configurations without the Virtualization Extensions and for an invariant that also covers user-bank writes / 32-bit SPSR values (exercised by the correspondence cases, not instantiated by a theorem); transfers that abort part-way under the MPU are compared three-way; the PUSH;POP round trip is not stated separately.'),
+ 'C04': ('execute() of B, BL/BLX (immediate), BLX (register), BX, CBZ/CBNZ, TBB/TBH (with MemU abstracted) and the four PC-write primitives proved equal to the architectural operations for every state, offset, register and PC (incl. wrap at 2^32); the offset assembled by every branch encoding proved to be the sign-extended field for every instruction word; PC read value and sequential advance; alignment and link-value consequences.',
+         'Partial: loads/ALU writes to PC belong to C01-C03; the whole-step statement "non-branch instructions advance the PC by their length" is searched (C05 step search), not proved. Known finding: CBZ offset scaled by 4 (pinned by the test-suite).'),
  'C05': ('CurrentCond and the 16x16 ConditionPassed table proved for every machine state; every conditional opcode class (266 of 273, enumerated from the regenerated dispatcher) proved a no-op when its condition fails.',
          'Partial: the whole-step statement (a failing condition leaves everything but the PC and the IT state unchanged) is searched over members of 600 of the 602 encoding classes, not proved; "behaves as the unconditional instruction when it passes" is proved as transparency of the guard.'),
  'C06': ("ARM class selection proved, for every word of each group's architectural domain, against hand-written A5 tables by a reflective cube checker proved sound once: top-level routing and 21 groups (data-processing register / register-shifted register / immediate, multiply, halfword multiply, saturating, synchronization, miscellaneous, MSR-and-hints, extra load/store (+unprivileged), load/store word/byte, branch/block transfer, media routing, parallel signed/unsigned, packing, signed multiply/divide, coprocessor/SVC, unconditional, dp-and-miscellaneous routing); decode is a function of the word alone by type.",
@@ -26,7 +26,7 @@ CLAIMS = {
  'C07': ('Thumb 16-bit class selection proved for every one of the 2^16 halfwords (evaluation inside Coq); Thumb 32-bit class selection proved for every one of the 2^32 words: top-level routing and 18 groups (shifted register + move/shift, modified immediate, plain binary immediate, load/store multiple, dual/exclusive/table branch, store single, load byte/halfword/word, data-processing register, parallel signed/unsigned, miscellaneous operations, multiply, long multiply, branches and miscellaneous control + CPS/hints + miscellaneous control).',
          'Partial: the Thumb-32 coprocessor group and the load-halfword hint slots (Rt = 1111) are outside the theorems; operand extraction is a table-driven three-way correspondence over 322 Thumb encodings (all but the branches; incl. !InITBlock() flags, UnalignedAllowed and valid SP/PC operands), not a theorem; branch operands are C04.'),
  'C08': ('it_advance = ITAdvance on every state; the ITSTATE schedule for every legal (firstcond, mask) and all 256 states '
-         'by exhaustive evaluation inside Coq (bound stated).',
+         'by exhaustive evaluation inside Coq (bound stated); executing IT sets ITSTATE = firstcond:mask and nothing else, for every state.',
          'Partial: per-step advance inside execute_instruction, flag-setting of 16-bit encodings in IT blocks and the '
          'exception-entry/return handling of IT bits are not yet theorems.'),
  'C09': ('every class of the family (92 abstract opcode classes) proved bit-exact for every operand value and state against Spec/Arith.v / Spec/Arith2.v: MUL/MLA/MLS, the long multiplies (N/Z from the 64-bit result), halfword, word-by-halfword, dual and most-significant-word multiplies (Q on overflow), SDIV/UDIV, QADD/QSUB/QDADD/QDSUB and SSAT/USAT/SSAT16/USAT16 (saturation and the sticky Q flag), all 36 parallel add/subtract forms (lanes and GE flags), USAD8/USADA8, the twelve extend(-and-add) forms, PKH, REV/REV16/REVSH, RBIT (32-step loop by invariant), UBFX/SBFX/BFC, CLZ, SEL; BFI proved to do exactly what the code does and shown not to be the architectural BFI (recorded finding). The helper arithmetic they share (SignedSatQ, AddWithCarry, bit fields, sign extension) is C17.',
@@ -39,8 +39,8 @@ CLAIMS = {
          'Partial: the dispatch of raised exceptions inside emulate_cycle and the HSR syndrome (write_hsr) are covered by the '
          'whole-step correspondence only, not yet by theorems; IsExternalAbort/IsAsyncAbort/DebugException are constant false '
          'in the emulator and so in the statement.'),
- 'C12': ('cpsr_write_by_instr = CPSRWriteByInstr for every value/mask/flag/configuration/state; consequences proved on the spec: unprivileged code cannot alter A/I/F/M, T/J/IT only on exception return, no illegal mode installed, NMFI, SCR.AW/FW; coproc_accepted proved to be the NSACR/CPACR decision (UNDEFINED when denied).',
-         'Partial: exception return (SUBS PC,LR ARM/Thumb; LDM^ and RFE under C03) has executable specifications compared three-way without theorems; SPSR writes by MSR and the hint instructions are covered by the regenerated model and whole-step correspondence only.'),
+ 'C12': ('cpsr_write_by_instr = CPSRWriteByInstr and spsr_write_by_instr = SPSRWriteByInstr for every value/mask/flag/configuration/state; consequences proved on the spec: unprivileged code cannot alter A/I/F/M, T/J/IT only on exception return, no illegal mode installed, NMFI, SCR.AW/FW; execute() of MRS and MSR (application and system level, immediate and register), CPS (ARM/Thumb), SETEND, ERET, SUBS PC,LR (ARM: all twelve opcodes, both operand forms; Thumb), NOP, CLREX, YIELD, SEV, WFE, WFI each proved equal to Spec/StatusAccess.v / Spec/Return.v (hints touch only the event register and wait flags; YIELD/SEV stop at not-implemented stubs with the state untouched); coproc_accepted proved to be the NSACR/CPACR decision (UNDEFINED when denied). LDM (exception return), RFE and SRS are proved under C03.',
+         'Partial: the exception-return statements exclude the UNPREDICTABLE return to Hyp mode with J and T set (shown impossible without the Virtualization Extensions); WFE/WFI trapping to Hyp mode and SMC are covered by the regenerated model and whole-step correspondence only; the round trip "enter an exception, execute its return" is the composition of C11 and these theorems, not stated as one theorem.'),
  'C13': ('MemA read/write proved for every address/size/value/configuration and every translation outcome (bytes at the '
          'translated address, little-endian or byte-reversed by CPSR.E; alignment policy by version and SCTLR.A/U incl. legacy '
          'align-down; alignment fault with DFSR/DFAR and no transfer); MemU proved to choose aligned access / alignment fault / '
